@@ -404,7 +404,8 @@ def _subparam_order(prog: Program, run: Run) -> None:
     per_tag = [x for x in walk_no_nested(f.node) if isinstance(x, ast.Call) and isinstance(
         x.func, ast.Attribute) and x.func.attr in ("iterfind", "findall", "iter") and x.args and
         any(t in TAGS for t in tag_values(x.args[0]))]
-    tag_tests = [x for x in walk_no_nested(f.node) if isinstance(x, ast.Compare) and isinstance(
+    # (nested predicate functions / lambdas of the parser included)
+    tag_tests = [x for x in ast.walk(f.node) if isinstance(x, ast.Compare) and isinstance(
         x.left, ast.Attribute) and x.left.attr == "tag" and all(
             k in ast.unparse(x) for k in ("'COMPARAM'", "'COMPLEX-COMPARAM'"))]
     if per_tag:
